@@ -182,6 +182,7 @@ class C02(vlib.Driver):
                     continue
                 cases.append(boundary(algo, share, 1))
         if only:
+            self._precompute(cases)
             return cases
         if tier == "quick":
             for algo in evo.ALGOS:
@@ -199,10 +200,35 @@ class C02(vlib.Driver):
                         for rep in range(2):
                             cases.append(seeded(algo, fam, share, rng.choice(["partial", "full", "none"]), 5,
                                                 rng.randrange(1000), rng.choice([2, 3, 4])))
+        self._precompute(cases)
         return cases
 
     # ------------------------------------------------------------------ implementation
+    def _precompute(self, cases):
+        """run the implementation on the generated cases in a few worker processes (the observations are plain data);
+        run_impl then returns the stored observation.  A case that fails in a worker is re-run in this process so that
+        the error is reported by the normal path."""
+        self._cache = {}
+        nw = int(os.environ.get("VERIF_C02_WORKERS", "4"))
+        if nw <= 1 or len(cases) < 3:
+            return
+        import multiprocessing as mp
+        try:
+            with mp.get_context("spawn").Pool(nw) as pool:
+                res = pool.map(_pool_run, cases, chunksize=1)
+        except Exception:
+            return
+        for c, r in zip(cases, res):
+            if r is not None:
+                self._cache[json.dumps(c, sort_keys=True)] = r
+
     def run_impl(self, case):
+        cached = getattr(self, "_cache", {}).pop(json.dumps(case, sort_keys=True), None)
+        if cached is not None:
+            return cached
+        return self._run_impl(case)
+
+    def _run_impl(self, case):
         import torch
         import numpy as np
         torch.set_num_threads(1)
@@ -338,10 +364,16 @@ class C02(vlib.Driver):
             return "false"
         w0 = evo.coq_world(obs["states"][0], reg, tab, regterm, nvals)
         evals = [g["eval"] for g in reg["groups"]]
-        sub_ids = {}
+        sub_ids, ptab = {}, {}
 
         def sid(x):
             return sub_ids.setdefault(x, len(sub_ids) + 1)
+
+        def entry(ag):
+            # alias classes are numbered per case: observations taken at different steps are put side by side
+            alias = evo._nl(ptab.setdefault(tuple(s_[2]), len(ptab)) for s_ in ag["slots"])
+            vals = evo._nl(tab.val(s_[3]) for s_ in ag["slots"])
+            return f"({evo.coq_aobs(ag, reg, tab)}, {alias}, {vals})"
         gsteps = []
         for op, rec, before, after in zip(case["ops"], obs["recs"], obs["states"], obs["states"][1:]):
             k = op[0]
@@ -389,8 +421,13 @@ class C02(vlib.Driver):
                             return "(mkAT ({}, {}) ({}, {}))".format(sid(t["sub"][0]), sid(t["sub"][1]), sid(t["full"][0]), sid(t["full"][1]))
                         arch.append("(mkAF {} {} [{}])".format("true" if ar["method"] is not None else "false", at(pol),
                                                               "; ".join(at(n) for n in evals if n != pol)))
-            gsteps.append("(mkG [{}] {} {} [{}])".format("; ".join(ops), evo.coq_obs(after, reg, tab), learn, "; ".join(arch)))
-        return f"check_run2 {w0} {evo.coq_obs(obs['states'][0], reg, tab)} [{'; '.join(gsteps)}]"
+            if k == "train":
+                change = f"(Upd [({op[1]}%nat, {entry(after[op[1]])})])"
+            else:
+                change = "(Full [{}])".format("; ".join(entry(ag) for ag in after))
+            gsteps.append("(mkG [{}] {} {} [{}])".format("; ".join(ops), change, learn, "; ".join(arch)))
+        p0 = "; ".join(entry(ag) for ag in obs["states"][0])
+        return f"check_run2 {w0} [{p0}] [{'; '.join(gsteps)}]"
 
     # ------------------------------------------------------------------ oracle: the property on the implementation
     def oracle(self, case, obs):
@@ -569,6 +606,15 @@ class C02(vlib.Driver):
                 c["ops"] = case["ops"][:cut]
                 yield c
                 break
+
+
+def _pool_run(case):
+    try:
+        import torch
+        torch.set_num_threads(1)
+        return C02()._run_impl(case)
+    except Exception:
+        return None
 
 
 def _clean(d):
